@@ -153,6 +153,9 @@ def run(prop: str, tier: str) -> int:
         run_items(rep, prop, typed, "str+typed", quick, "typed")
         run_items(rep, prop, typed if not quick else typed[::3], "dataclass+typed", quick, "typed-objects")
         run_items(rep, prop, plain if not quick else plain[::3], "ustr", quick, "unicode")
+        # falsy data objects (the empty string) rebuilt by the mappers
+        run_items(rep, prop, plain if not quick else plain[1::3], "estr", quick, "empty-string")
+        run_items(rep, prop, typed if not quick else typed[1::3], "estr+typed", quick, "typed-empty-string")
     return rep.finish()
 
 
